@@ -8,3 +8,6 @@ import Rpki.Props.C11
 #print axioms Rpki.Props.C11.publication_tree_wf
 #print axioms Rpki.Props.C11.publication_injective
 #print axioms Rpki.Props.C11.publication_norm_needed
+#print axioms Rpki.Props.C11.idexchange_roundtrip
+#print axioms Rpki.Props.C11.idexchange_injective
+#print axioms Rpki.Props.C11.idexchange_tree_wf
